@@ -6,19 +6,19 @@ import GqlProofs.ValSpec.Local
 namespace Gql.Validate
 open Gql Gql.Validate.Rules
 
-theorem fragEvents_filter (evs : List Event) :
-    fragEvents (evs.filter fun e => (fragOf e).isSome) = fragEvents evs := by
+theorem fragDefEvents_filter (evs : List Event) :
+    fragDefEvents (evs.filter fun e => (fragOf e).isSome) = fragDefEvents evs := by
   induction evs with
   | nil => rfl
   | cons e rest ih =>
     cases h : fragOf e with
     | none =>
       rw [List.filter_cons_of_neg (by simp [h])]
-      simp only [fragEvents, List.filterMap_cons, h] at ih ⊢
+      simp only [fragDefEvents, List.filterMap_cons, h] at ih ⊢
       exact ih
     | some f =>
       rw [List.filter_cons_of_pos (by simp [h])]
-      simp only [fragEvents, List.filterMap_cons, h] at ih ⊢
+      simp only [fragDefEvents, List.filterMap_cons, h] at ih ⊢
       rw [ih]
 
 theorem opEvents_filter (evs : List Event) :
@@ -59,8 +59,8 @@ theorem uniqueOperationNames_skip (sv : SV) (d : QueryDoc) (st : List Name) (e :
 theorem uniqueFragmentNames_run (sv : SV) (d : QueryDoc) :
     ∀ (es : List Event) (seen : List Name), (∀ e ∈ es, (fragOf e).isSome = true) →
       ∃ errs, runAll sv d [({ rule := uniqueFragmentNames, st := seen } : Running)] es = .ok errs ∧
-        (errs = [] ↔ freshFrom seen ((fragEvents es).map (·.name)))
-  | [], seen, _ => ⟨[], rfl, by simp [fragEvents, freshFrom]⟩
+        (errs = [] ↔ freshFrom seen ((fragDefEvents es).map (·.name)))
+  | [], seen, _ => ⟨[], rfl, by simp [fragDefEvents, freshFrom]⟩
   | e :: rest, seen, hall => by
     have he := hall e List.mem_cons_self
     obtain ⟨f, hf⟩ := Option.isSome_iff_exists.1 he
@@ -72,8 +72,8 @@ theorem uniqueFragmentNames_run (sv : SV) (d : QueryDoc) :
     simp only [uniqueFragmentNames] at hr
     rw [hr]
     refine ⟨_, rfl, ?_⟩
-    simp only [fragEvents, List.filterMap_cons, hf, List.map_cons, freshFrom]
-    simp only [fragEvents] at hiff
+    simp only [fragDefEvents, List.filterMap_cons, hf, List.map_cons, freshFrom]
+    simp only [fragDefEvents] at hiff
     rw [← hiff]
     by_cases hm : f.name ∈ seen
     · simp [hm]
@@ -104,14 +104,14 @@ theorem uniqueOperationNames_run (sv : SV) (d : QueryDoc) :
 
 theorem validate_uniqueFragmentNames (s : Schema) (d : QueryDoc) (evs : List Event)
     (hw : walkDoc s.view d = some evs) :
-    validate [uniqueFragmentNames] s d = .ok [] ↔ ((fragEvents evs).map (·.name)).Nodup := by
+    validate [uniqueFragmentNames] s d = .ok [] ↔ ((fragDefEvents evs).map (·.name)).Nodup := by
   unfold validate
   rw [validateV_ok_iff]
   have hfilt := runAll_single_filter s.view d uniqueFragmentNames (fun e => (fragOf e).isSome)
     (fun st e h => uniqueFragmentNames_skip s.view d st e h) evs []
   obtain ⟨errs, hr, hiff⟩ := uniqueFragmentNames_run s.view d (evs.filter fun e => (fragOf e).isSome) []
     (fun e he => (List.mem_filter.1 he).2)
-  rw [fragEvents_filter, freshFrom_nil] at hiff
+  rw [fragDefEvents_filter, freshFrom_nil] at hiff
   have hstart : [uniqueFragmentNames].map Rule.start = [({ rule := uniqueFragmentNames, st := [] } : Running)] := rfl
   constructor
   · rintro ⟨evs', hw', hrun⟩
